@@ -25,14 +25,15 @@ Record bufw := { bw_buf : list chunk; bw_len : N }.
 Definition bw_empty : bufw := {| bw_buf := []; bw_len := 0 |}.
 
 (* write_all(buf): if len < spare -> buffer; else { if len > spare -> flush_buf; if len >= cap ->
-   write straight to the file else buffer } *)
+   write straight to the file else buffer }.  A direct write (len >= cap) always finds the buffer empty: it was
+   either flushed just before (len > spare) or len = spare = cap, i.e. nothing is buffered; the model writes
+   "buffer, then the data" in both cases. *)
 Definition bw_write (file : list chunk) (w : bufw) (cs : list chunk) (len : N) : list chunk * bufw :=
   let spare := CAP - bw_len w in
   if len <? spare then (file, {| bw_buf := bw_buf w ++ cs; bw_len := bw_len w + len |})
-  else
-    let fw := if spare <? len then (file ++ bw_buf w, bw_empty) else (file, w) in
-    if CAP <=? len then (fst fw ++ cs, snd fw)
-    else (fst fw, {| bw_buf := bw_buf (snd fw) ++ cs; bw_len := bw_len (snd fw) + len |}).
+  else if CAP <=? len then (file ++ bw_buf w ++ cs, bw_empty)
+  else if spare <? len then (file ++ bw_buf w, {| bw_buf := cs; bw_len := len |})
+  else (file, {| bw_buf := bw_buf w ++ cs; bw_len := bw_len w + len |}).
 
 Definition bw_flush (file : list chunk) (w : bufw) : list chunk * bufw := (file ++ bw_buf w, bw_empty).
 
@@ -233,18 +234,25 @@ Inductive op :=
 (* which version of the code: fw = the truth-log writer issues ONE write for line + "\n" (repo bd2ee56;
    false = the two writes before it, suspicion S7); fr = load_next_seq_for numbers from the truth log and
    only trusts a sidecar whose tail agrees with it (the S3 repair; false = sidecar tail first) *)
-Record ver := { fw : bool; fr : bool }.
-Definition fixed : ver := {| fw := true; fr := true |}.
+(* ff = EventLog::append flushes after EVERY frame (false = output-chunk frames of session / task streams are
+   left in the BufWriter until a later frame flushes them: the acknowledged append is not on disk) *)
+Record ver := { fw : bool; fr : bool; ff : bool }.
+Definition fixed : ver := {| fw := true; fr := true; ff := true |}.
 
-Definition truth_append (v : ver) (f : frame) : list instr :=
-  if fw v then [IPt 1; IPt 2; ITruthWrite [Body f; NL]; IPt 3; IPt 4; ITruthFlush; IPt 5]
-  else [IPt 1; IPt 2; ITruthWrite [Body f]; IPt 3; ITruthWrite [NL]; IPt 4; ITruthFlush; IPt 5].
+Definition truth_append_gen (one_write flush : bool) (f : frame) : list instr :=
+  (if one_write then [IPt 1; IPt 2; ITruthWrite [Body f; NL]; IPt 3; IPt 4]
+   else [IPt 1; IPt 2; ITruthWrite [Body f]; IPt 3; ITruthWrite [NL]; IPt 4])
+  ++ (if flush then [ITruthFlush] else []) ++ [IPt 5].
+Definition truth_append (v : ver) (f : frame) : list instr := truth_append_gen (fw v) true f.
+(* a session / task stream frame (OSess): the only frames the flush decision can differ for *)
+Definition sess_append (v : ver) (f : frame) : list instr := truth_append_gen (fw v) (ff v) f.
 
-(* ContinuityStreamCache::append_best_effort, full sidecar part: body and newline are two writes into a
-   fresh BufWriter (the derived sidecars and indexes are not modelled; the harness checks their crash points
-   with the oracle only) *)
+(* ContinuityStreamCache::append_best_effort, full sidecar part: line + "\n" in ONE write into a fresh
+   BufWriter (since the S7-derived repair in /repo; before it body and newline were two writes, as in the
+   truth log before bd2ee56).  The derived sidecars and indexes are not modelled; the harness checks their
+   crash points with the oracle only. *)
 Definition side_append (c : N) (f : frame) : list instr :=
-  [ISideOpen c; IPt 21; ISideWrite c [Body f]; IPt 22; ISideWrite c [NL]; IPt 23; ISideFlush c; IPt 24].
+  [ISideOpen c; IPt 21; ISideWrite c [Body f; NL]; IPt 22; IPt 23; ISideFlush c; IPt 24].
 
 Definition save_index : list instr := [IPt 51; IIdxTmp; IPt 52; IIdxRename; IPt 53].
 Definition write_blob (a : N) : list instr := [IPt 54; IArtTmp a; IPt 55; IArtRename a; IPt 56].
@@ -367,7 +375,7 @@ Definition compile (v : ver) (s : st) (i : N) (o : op) : list instr :=
   | OAppend c len => locked_append v s c (4 * i) len None
   | OSess x len =>
     let n := match get (2 * x + 1) (nexts s) with Some n => n | None => 0 end in
-    truth_append v (mkf (2 * x + 1) n (4 * i) len None) ++ [ISetNext (2 * x + 1) (n + 1); IAck (4 * i); IOk]
+    sess_append v (mkf (2 * x + 1) n (4 * i) len None) ++ [ISetNext (2 * x + 1) (n + 1); IAck (4 * i); IOk]
   | OCheckpoint c a has_msg len =>
     let r := replay_events s c in
     fst r ++
@@ -429,7 +437,8 @@ Fixpoint crash_at_point (v : ver) (n : nat) (s : st) (i : N) (ops : list op) : s
   match ops with
   | [] => (s, 0)
   | o :: r =>
-    match upto_point n s (compile v s i o) with
+    (* IPt 99 = "op.returned": the harness also snapshots the store right after every capability call *)
+    match upto_point n s (compile v s i o ++ [IPt 99]) with
     | inl res => res
     | inr (s', n') => crash_at_point v n' s' (i + 1) r
     end
